@@ -275,6 +275,7 @@ def check_case(case):
             if both_rej.any():
                 G = A.copy()
                 G[both_rej] = G[both_rej][:, ::-1] * 7.5 + 3.0
+                G[np.ix_(np.flatnonzero(both_rej)[::2], np.arange(0, G.shape[1], 3))] = 0.0      # dead samples (amplitude 0 is a valid input)
                 twin = hv.HvsrTraditional(f, G)
                 twin.update_peaks_bounded(tuple(cur_range), None if cur_kw is None else dict(cur_kw))
                 twin.valid_window_boolean_mask = W.copy()
